@@ -130,6 +130,14 @@ func c08GenOpt(r *RNG, id string, allowComma bool) *Case {
 	c.Set("ref", ref)
 	c.Set("qnames", strings.Join(randNamesCSV(r, nq, "Q", allowComma), ",")).Set("qseqs", strings.Join(qs, ","))
 	tn := randNamesCSV(r, nt, "T", allowComma)
+	dupTarget := ""
+	if !allowComma && len(tn) > 2 && r.Chance(1, 6) { // the same sample twice in the target file (different sequences)
+		i := r.Intn(len(tn) - 1)
+		j := i + 1 + r.Intn(len(tn)-1-i)
+		tn[j] = tn[i]
+		dupTarget = tn[i]
+		c.Tag("duplicate-target-id")
+	}
 	c.Set("tnames", strings.Join(tn, ",")).Set("tseqs", strings.Join(ts, ","))
 	// option sets
 	o := map[string]int{"sizetotal": 0, "sizeup": 0, "sizedown": 0, "sizeside": 0, "sizesame": 0, "distall": 0, "distup": 0, "distdown": 0, "distside": 0, "distpush": 0}
@@ -178,6 +186,9 @@ func c08GenOpt(r *RNG, id string, allowComma bool) *Case {
 	var ign []string
 	for k := 0; k < r.PickInt([]int{0, 0, 1, 3}); k++ {
 		ign = append(ign, tn[r.Intn(len(tn))])
+	}
+	if dupTarget != "" && r.Bool() { // and that sample is to be ignored: every record of that name
+		ign = append(ign, dupTarget)
 	}
 	c.Set("ignore", strings.Join(ign, ","))
 	c.SetBool("table", r.Chance(1, 3))
